@@ -1061,4 +1061,7 @@ def engine_selfcheck(rep: Any) -> None:
     msg = canon_check.run(seed=getattr(rep, "seed", 0) or 0, rounds=40 if rep.tier != "thorough" else 400)
     if msg:
         raise AnalysisError(f"ENC engine self-check failed - the canonical form changes the meaning of a constraint: {msg}")
+    from ..selftest import k3_check
+
+    k3_check.engine_selfcheck(rep)
     rep.extra["engine_selfcheck"] = "canonical form preserves meaning on random trees (cmp/neg/nary/iff/add/fold against an independent evaluator)"
